@@ -359,9 +359,15 @@ def pick_sources(rng, m, k=None):
     k = k or rng.randint(1, min(3, N))
     ps = source_pulses(rng, m, min(k, N))
     res = []
+    same = None
     for p in ps:
         mag = 10 ** rng.uniform(-1, 1.5)
         ph = rng.uniform(-math.pi, math.pi) if rng.random() < 0.7 else 0.0
+        if same is None:
+            # a quarter of the multi-source models feed every source with exactly the same voltage (an in-phase array)
+            same = (mag, ph) if (len(ps) >= 2 and int(mag * 1e7) % 4 == 0) else False
+        elif same:
+            mag, ph = same
         v = complex(mag * math.cos(ph), mag * math.sin(ph))
         form = int(mag * 1e6) % 4
         if form == 0:
